@@ -30,6 +30,9 @@ TEMPLATES = {
     'join': ("start::{p}Doc: items:','%{{item}} opt:[item] $ ;\n\nitem::{p}Item::{p}Base: n:/[ab]/ ;\n", ['a', 'b', ',', ' ']),
     'override': ("start::{p}Doc: body:paren $ ;\n\nparen::{p}Paren: '(' @:inner ')' ;\n\ninner::{p}Inner: x:/[ab]/ | x:paren ;\n", ['(', ')', 'a', 'b']),
     'deep-chain': ("start::{p}Top: x:mid ;\n\nmid::{p}Mid::{p}Base::{p}Root: y:leaf ;\n\nleaf::{p}Leaf::{p}Root: /[ab]/ ;\n", ['a', 'b', ' ']),
+    'untyped-in-list': ("start::{p}Doc: sections:{{section}} $ ;\n\nsection::{p}Section: 'a' entries:{{entry}} ;\n\nentry: key:item ':' value:[item] ;\n\nitem::{p}Item: v:/[b]/ ;\n",
+                        ['a', 'b', ':', ' ']),
+    'field-named-exp': ("start::{p}Prog: body:{{stmt}} $ ;\n\nstmt::{p}Ret: 'a' exp:[e] cond:[';' e] ;\n\ne::{p}E: v:/b/ ;\n", ['a', 'b', ';', ' ']),
     'untyped-between': ("start::{p}Doc: g:group $ ;\n\ngroup: a:item b:[item] ;\n\nitem::{p}Item: v:/[ab]/ ;\n", ['a', 'b', ' ']),
 }
 
